@@ -29,6 +29,14 @@ def effect (fn : String) (_j : Json) : Option (Except String Json) :=
   | "effects_table" => some (pure (Json.mkObj [
       ("entries", Json.arr (table.map summary).toArray),
       ("notLowered", Json.arr (notLowered.map (fun t => Json.arr #[Json.str t.1, Json.str t.2.1, Json.str t.2.2])).toArray)]))
+  | "pure_table" => some (pure (Json.arr (pureTable.map (fun e => Json.mkObj [
+      ("name", Json.str e.name), ("prop", Json.num (JsonNumber.fromNat e.prop)),
+      ("wellFormed", Json.bool (wellFormedWith e.taint e.nvars e.body e.prog)),
+      ("resultNew", match e.result with
+        | some x => Json.bool ((resultTag e.taint e.nvars e.prog x).map Tag.deep == some true)
+        | none => Json.null),
+      ("mustReturnNew", Json.bool e.freshResult),
+      ("size", Json.num (JsonNumber.fromNat (size e.prog + size e.body)))])).toArray))
   | "patch_table" => some (pure (Json.mkObj [
       ("entries", Json.arr (patchTable.map (fun e => Json.mkObj [
         ("name", Json.str e.cls), ("api", Json.bool e.api),
